@@ -320,6 +320,50 @@ func runC16(r *core.Run) {
 	})
 	// writer side: every chunk sequence emitted by the writers in a menu of histories is legal
 	c16Writer(r)
+	// legal sequences as liblzma writes them (raw LZMA2 files of the frozen corpus, among them
+	// uncompressed chunks followed by state-reset chunks) are accepted
+	var raws []ref.CorpusEntry
+	for _, e := range bindRef(nil) {
+		if strings.HasPrefix(e.Kind, "lzma2:") {
+			raws = append(raws, e)
+		}
+	}
+	r.Parallel(len(raws)*2, "liblzma raw LZMA2 corpus", func(i int) {
+		e := raws[i/2]
+		dc := []int{65536, 1 << 22}[i%2]
+		out, err, proto, pan := lzma2Decode(e.Data, dc)
+		cs := core.MkCase("C16", "corpus", map[string]interface{}{"file": e.File, "dictcap": dc})
+		desc := fmt.Sprintf("liblzma-written raw LZMA2 file %s, Reader2 DictCap %d", e.File, dc)
+		switch {
+		case pan != nil:
+			r.Violate(cs, "lzma2R liblzma-sequence → panic@"+pan.Site(), desc, pan.Value, "no panic")
+		case proto != "" || errClass(err) != "EOF" || !bytes.Equal(out, e.Plain):
+			r.Violate(cs, "lzma2R liblzma-sequence → rejected-or-wrong-bytes", desc, fmt.Sprintf("%d bytes then %s %s", len(out), errStr(err), proto), fmt.Sprintf("%d bytes then io.EOF", len(e.Plain)))
+		}
+		rr := ref.DecodeLZMA2(e.Data, 1<<22, false)
+		for _, c := range rr.Chunks {
+			r.Trans("liblzma:" + c.StateBefore + " --" + c.Kind.String())
+		}
+		r.Trace(1)
+		r.Eval(core.Hash("corpus", e.File, dc, errClass(err), len(out)))
+	})
+	r.Extra("liblzma_raw_lzma2_files", len(raws))
+	// chunk size fields at their limits (generator of C03), judged by liblzma as well
+	for _, e := range c03Extremes() {
+		if s := liblzmaAgrees('r', 1<<22, e.lz2, e.plain); s != "" {
+			panic("C16 harness error: liblzma disagrees on the size-field extreme " + e.name + ": " + s)
+		}
+		out, err, proto, pan := lzma2Decode(e.lz2, 4096)
+		cs := core.MkCase("C16", "extreme", map[string]string{"name": e.name})
+		switch {
+		case pan != nil:
+			r.Violate(cs, "lzma2R size-field-extreme → panic@"+pan.Site(), e.name, pan.Value, "no panic")
+		case proto != "" || errClass(err) != "EOF" || !bytes.Equal(out, e.plain):
+			r.Violate(cs, "lzma2R size-field-extreme → rejected-or-wrong-bytes", e.name, fmt.Sprintf("%d bytes then %s %s", len(out), errStr(err), proto), fmt.Sprintf("%d bytes then io.EOF", len(e.plain)))
+		}
+		r.Trace(1)
+		r.Eval(core.Hash("extreme", e.name, errClass(err), len(out)))
+	}
 	need := 0
 	for _, st := range []string{"D1P1", "D0P1", "D0P0"} {
 		for k := 1; k <= 6; k++ {
